@@ -312,7 +312,7 @@ func runC07(t *testing.T, tape *sim.Tape, tier string) *Outcome {
 func init() {
 	register(&Check{
 		ID: "C07", Bubble: true, Run: runC07,
-		Runs:   map[string]int{"quick": 3000, "thorough": 200000},
+		Runs:   map[string]int{"quick": 20000, "thorough": 600000},
 		Rule:   "a case is one run of the full server (Start, accept loop, connection goroutines) with 1..3 offender connections (boundary-argument commands on a small key pool, ill-formed and unknown commands, odd/null/nested arrays, malformed frames; ended by idle/half-close/close/reset at a drawn byte), one lock-step witness with exact expected replies and one late-comer, under a seeded interleaving of all deliveries and server goroutines; handler = bundled example store or reference store; distinct = distinct event-log hashes; every run has an offender, so all are non-trivial",
 		Real:   []string{"redis.Server Start/accept loop/connection goroutines/dispatch/executors/parser", "examples/go-redisd/server store (half of the runs)"},
 		Stub:   []string{"network: simulated listener and connections", "handler (other half): reference store", "process isolation: one worker process per shard, a worker death is attributed to its run and replayed alone"},
